@@ -53,6 +53,21 @@ var rewrites = []struct {
 	{"all", awkgen.Opts{ParenStmts: true, ParenConds: true, GroupField: true, StrIndex: true, GroupCat: true, IncrAsAug: true}},
 }
 
+// hand-written programs of the integer fragment for the execution correspondence (evaluation order, lvalues, control flow)
+var toyProbes = []string{
+	`BEGIN { i = 1; A0[i++] = i++; print 0 + i, 0 + A0[1], 0 + A0[2], length(A0) }`,
+	`BEGIN { g0 = 5; g1 = g0++ + g0++; g2 = ++g0 - g0--; print 0 + g0, 0 + g1, 0 + g2 }`,
+	`function f0(p0, p1) { p0 += 2; p1++; g0 += p0; return p0 * 10 % 97 + p1 } BEGIN { g1 = f0(g0 = 3, g0 + 1) + f0(7); print 0 + g0, 0 + g1, 0 + f0() }`,
+	`BEGIN { g0 = 0; g1 = (g0 = 1) || (g0 = 2); g2 = (g0 == 1) && (g3 = 9); print 0 + g0, 0 + g1, 0 + g2, 0 + g3; g1 = 0 && (g0 = 5); g2 = g1 ? (g0 = 6) : (g0 += 10); print 0 + g0, 0 + g1, 0 + g2 }`,
+	`BEGIN { for (i = 0; i < 5; i++) { if (i == 1) continue; if (i == 4) break; A1[i] = i * 2 % 97; w = 0; while (w < 3) { w++; if (w == 2) continue; g0 += w } } print 0 + g0, length(A1); for (k in A1) { s += A1[k] + (k + 0); c++ } print 0 + s, 0 + c }`,
+	`BEGIN { do { n++; if (n == 2) continue; if (n > 3) break; g0 += n } while (n < 10); print 0 + n, 0 + g0; A0[1] = 1; A0[2] = 2; delete A0[1]; print (1 in A0), (2 in A0), length(A0); delete A0; print length(A0) }`,
+	`function f0(p0) { if (p0 > 0 && p0 < 12) return f0(p0 - 1) + (p0 % 3); return 0 } function f1(p0, p1) { if (p0) return; p1 = 4; return p1 } BEGIN { print 0 + f0(7), 0 + f1(1), 0 + f1(0); exit (g0 = 3) + 1; print 99 }`,
+	`BEGIN { print 0 + 7 % 3, 0 + (-7) % 3, 0 + (7 - 7 % 2) / 2, 0 + -g0; g1 = 5; print 0 + g1 % (g1 - 5) }`,
+	`BEGIN { A0[0]; A0[3] += 2; A0[3]++; ++A0[4]; A0[4] %= 1; g0 = A0[(g1 = 3) % 5]--; print 0 + g0, 0 + g1, 0 + A0[3], 0 + A0[4], length(A0), (0 in A0) }`,
+	`function f0(p0) { g0++; return p0 + g0 } BEGIN { g1 = f0(g0) + f0(g0) * 2 % 97; print 0 + g0, 0 + g1; g2 = (g0 = 10) + f0(g0--); print 0 + g0, 0 + g2 }`,
+	`function f0(p0) { return f0(p0 + 1) } BEGIN { print 1; f0(0); print 2 }`,
+}
+
 // hand-written probes for the shortcut paths, each with spellings that must agree
 var probes = [][]string{
 	{`BEGIN { x = log(-1); if (x < 1) print "lt"; else print "not-lt" }`, `BEGIN { x = log(-1); if ((x < 1)) print "lt"; else print "not-lt" }`},
@@ -67,6 +82,35 @@ var probes = [][]string{
 	{`function f(a, b, R) { R["k"] = a; b++; return a b } BEGIN { print f(1), f(1, 2), f(1, 2, A), A["k"] }`, `function f(a, b, R) { (R["k"] = a); (b++); return (a b) } BEGIN { print f(1), f(1, 2), f(1, 2, A), A["k"] }`},
 	{`BEGIN { s = "aXbXc"; n = gsub(/X/, "-", s); print n, s; $0 = "p q"; sub(/p/, "[&]"); print; sub(/zzz/, "y", $2); print NF }`, `BEGIN { s = "aXbXc"; n = (gsub(/X/, "-", s)); print n, s; $0 = "p q"; (sub(/p/, "[&]")); print; (sub(/zzz/, "y", $2)); print NF }`},
 	{`BEGIN { a = 1; b = "x"; c = 2.5; print a b c a, a b, (a b) c }`, `BEGIN { a = 1; b = "x"; c = 2.5; print ((a b) c) a, a b, (a b) c }`},
+}
+
+// runToy: the implementation on a BEGIN-only integer program, rendered like ocaml/c01/driver.ml renders a model run
+func runToy(src string) string {
+	rr := hx.RunAwk(src, &interp.Config{Stdin: strings.NewReader(""), Environ: []string{}, NoExec: true, NoFileWrites: true}, nil)
+	if rr.Panic != nil {
+		return fmt.Sprintf("panic %v", rr.Panic)
+	}
+	var lines []string
+	for _, l := range strings.Split(strings.TrimSuffix(string(rr.Out), "\n"), "\n") {
+		if l == "" && len(rr.Out) == 0 {
+			continue
+		}
+		lines = append(lines, strings.Join(strings.Split(l, " "), ","))
+	}
+	out := strings.Join(lines, ";")
+	if rr.Err != nil {
+		code := map[string]string{"division by zero": "1", "division by zero in mod": "2"}[rr.Err.Error()]
+		if code == "" {
+			if strings.Contains(rr.Err.Error(), "exceeded maximum call depth") {
+				code = "4"
+			} else {
+				code = "other(" + rr.Err.Error() + ")"
+			}
+		}
+		return fmt.Sprintf("err:%s status=%d out=%s", code, 0, out)
+	}
+	// running off the end and `exit` are not told apart (after exit the rest of BEGIN, incl. the final dump, is not run)
+	return fmt.Sprintf("end status=%d out=%s", rr.Status, out)
 }
 
 func main() {
@@ -130,6 +174,82 @@ func main() {
 			}
 			if model != impl {
 				rep.Mismatch(hx.Mismatch{Class: "compile", Input: src, Impl: impl, Model: model})
+			}
+		}
+	}
+
+	// ---- correspondence: execution on the integer fragment (both model semantics vs the implementation) ----
+	nToy := 400
+	if o.Tier == "thorough" {
+		nToy = 20000
+	}
+	if o.N > 0 {
+		nToy = o.N
+	}
+	{
+		var tl, ts, ti []string
+		for i := 0; i < nToy; i++ {
+			src := execProgram(r)
+			prog, err := parser.ParseProgram([]byte(src), nil)
+			if err != nil {
+				rep.Count("exec:parse-error")
+				if rep.Hist["exec:parse-error"] <= 3 {
+					rep.Sample(map[string]string{"exec-generator-produced-unparsable": src, "err": err.Error()})
+				}
+				continue
+			}
+			tl = append(tl, "exec\t"+prog.VerifDumpAST(false)+"\t300000")
+			ts = append(ts, src)
+			ti = append(ti, runToy(src))
+		}
+		for _, pr := range toyProbes {
+			prog, err := parser.ParseProgram([]byte(pr), nil)
+			if err != nil {
+				rep.HarnessError("exec probe does not parse: %v: %s", err, pr)
+				continue
+			}
+			tl = append(tl, "exec\t"+prog.VerifDumpAST(false)+"\t300000")
+			ts = append(ts, pr)
+			ti = append(ti, runToy(pr))
+		}
+		ans, err := hx.ModelEval(o.ModelRun, tl)
+		if err != nil {
+			rep.HarnessError("%v", err)
+		} else {
+			for i, src := range ts {
+				rep.CorrEvals++
+				m := ans[i]
+				if strings.HasPrefix(m, "unmod") {
+					rep.Unmodelled++
+					rep.Count("exec:" + m)
+					continue
+				}
+				if strings.HasPrefix(m, "driver-error") {
+					rep.HarnessError("%s on %s", m, src)
+					continue
+				}
+				if strings.Contains(m, "unmod") { // one of the two semantics left the fragment while running
+					rep.Unmodelled++
+					rep.Count("exec:unmod-at-run-time")
+					continue
+				}
+				rep.Count("exec:compared")
+				kind := ti[i][:strings.IndexByte(ti[i]+" ", ' ')]
+				rep.Count("exec:outcome:" + strings.SplitN(kind, ":", 2)[0])
+				rep.Distinct(src)
+				if i%97 == 0 {
+					rep.Sample(map[string]string{"exec-program": src, "implementation": ti[i], "model": m})
+				}
+				want := "ast=[" + ti[i] + "] vm=[" + ti[i] + "]"
+				if m != want {
+					cl := "exec:tree-semantics-vs-implementation"
+					if !strings.HasPrefix(m, "ast=["+ti[i]+"]") && strings.HasSuffix(m, "vm=["+ti[i]+"]") {
+						cl = "exec:tree-semantics-only-differs"
+					} else if strings.HasPrefix(m, "ast=["+ti[i]+"]") {
+						cl = "exec:vm-semantics-only-differs"
+					}
+					rep.Mismatch(hx.Mismatch{Class: cl, Input: src, Impl: ti[i], Model: m})
+				}
 			}
 		}
 	}
